@@ -5,6 +5,7 @@
     Specification: Model/SpecTables.v (the specification's conversion tables as data and a
     generic table-driven converter).  Numbers: Model/Num.v (exact dyadic binary64). *)
 Require Import Norad.Model.Upconv Norad.Proofs.NumP Norad.Proofs.UpconvP.
+Require Norad.Model.FontInfo Norad.Proofs.FontInfoP.
 From Coq Require Import QArith Qabs.
 Open Scope string_scope.
 Open Scope Z_scope.
@@ -148,16 +149,84 @@ Theorem C14_reader_typed : forall schema raw r,
   decode_fields schema raw = Some r -> typed schema r.
 Proof. exact decode_fields_typed. Qed.
 
-(** a successful load reports format 3 and an info that passes validation.
-    PARTIAL with respect to the property text ("passes validation and can be saved"):
-    [validate] here is the restriction of FontInfo::validate to the attributes a legacy
-    conversion can set (date, selection bits, family class, the six PostScript lists); its
-    equality with the full validator on such infos, and that a valid info can be written
-    (the serialiser), belong to the C13 / C01 models and are checked on the implementation by
-    this property's oracle (validate() and save() are called on every loaded font). *)
-Theorem C14_result_v3_valid_partial : forall u l,
-  load_model u = Ok l -> l_version l = 3 /\ validate (l_info l) = None.
-Proof. exact load_result_valid. Qed.
+(** ** the resulting font passes validation, and its info can be saved
+
+    The validator of the model IS C13's [FontInfo.fi_validate] (characterised by
+    [C13_validate_iff_spec]), run on the projection [project] of the converted key-value info
+    onto C13's record of rule-relevant fields.  The projection
+      - keeps openTypeHeadCreated (bytes), openTypeOS2Selection and openTypeOS2FamilyClass (as
+        unsigned numbers; exact by [C14_projection_exact]) and the lengths of the six PostScript
+        lists;
+      - forgets the values of the members of those lists (each becomes 0; the rules read only
+        lengths) and all other attributes (no rule reads them);
+      - has [None] for gasp records, guidelines and the WOFF attributes, which is exact because
+        these attributes are absent from every loaded legacy info ([C14_projection_exact]). *)
+Theorem C14_result_v3_valid : forall u l,
+  load_model u = Ok l -> l_version l = 3 /\ FontInfo.fi_spec (project (l_info l)).
+Proof.
+  intros u l H. destruct (load_result_valid u l H) as [V S]. split; [exact V|].
+  apply validate_ok_spec. exact S.
+Qed.
+
+(** the info part of "can be saved": [Font::save]'s font-info step (validate before the target
+    is touched, then serialise) succeeds on the loaded info and writes exactly it.  The rest of
+    a save (layers, lib, stores: C01/C08/C09) is exercised by this property's oracle on the
+    implementation (every loaded font is saved and re-read), not proved here. *)
+Theorem C14_result_saveable : forall u l,
+  load_model u = Ok l -> FontInfo.fi_save (project (l_info l)) = Ok (project (l_info l)).
+Proof.
+  intros u l H. destruct (C14_result_v3_valid u l H) as [_ S].
+  apply FontInfoP.save_iff_spec in S. destruct S as [j Hj].
+  destruct (FontInfoP.save_only_valid _ _ Hj) as [E _]. subst j. exact Hj.
+Qed.
+
+(** the loaded info has the format-3 types, the structured format-3-only attributes are absent,
+    and on such an info the projection's unsigned fields lose nothing *)
+Theorem C14_projection_exact : forall u l,
+  load_model u = Ok l ->
+  typed ufo3_schema (l_info l) /\
+  (forall k, In k ["guidelines"; "openTypeGaspRangeRecords"; "openTypeNameRecords";
+                   "woffMetadataCopyright"; "woffMetadataCredits"; "woffMetadataDescription";
+                   "woffMetadataExtensions"; "woffMetadataLicense"; "woffMetadataLicensee";
+                   "woffMetadataTrademark"; "woffMetadataUniqueID"; "woffMetadataVendor"] ->
+     get (l_info l) k = None) /\
+  (forall s, get (l_info l) "openTypeOS2Selection" = Some (VInts s) ->
+     FontInfo.i_selection (project (l_info l)) = Some (map Z.to_N s) /\
+     map Z.of_N (map Z.to_N s) = s) /\
+  (forall v, get (l_info l) "openTypeOS2FamilyClass" = Some v ->
+     exists a b, v = VInts [a; b] /\
+                 FontInfo.i_class (project (l_info l)) = Some (Z.to_N a, Z.to_N b) /\
+                 Z.of_N (Z.to_N a) = a /\ Z.of_N (Z.to_N b) = b).
+Proof.
+  intros u l H. pose proof (load_typed u l H) as T. split; [exact T|]. split.
+  - intros k Hk. apply (load_complex_absent u l k H). exact Hk.
+  - destruct (project_exact (l_info l) T) as (P1 & P2 & _). split; [exact P1|exact P2].
+Qed.
+
+(** no panic site is reachable while a legacy font info is loaded (the [unwrap] of the
+    unitsPerEm conversion, the slices of the date rule) *)
+Theorem C14_load_total : forall u s, load_model u <> Panic s.
+Proof. exact load_no_panic. Qed.
+
+Example C14_valid_witness :
+  load_model {| u_version := 2;
+                u_fontinfo := Some [("openTypeHeadCreated", PStr "2020/02/30 23:59:59");
+                                    ("postscriptBlueValues", PArr [PInt 1; PReal (Fin 5 (-1))]);
+                                    ("openTypeOS2Selection", PArr [PInt 7; PInt 1])];
+                u_lib := None; u_features := None |}
+  = Ok {| l_version := 3;
+          l_info := [("openTypeHeadCreated", VStr "2020/02/30 23:59:59");
+                     ("openTypeOS2Selection", VInts [7; 1]);
+                     ("postscriptBlueValues", VNums [Fin 1 0; Fin 5 (-1)])];
+          l_features := ""; l_lib := [] |} /\
+  load_model {| u_version := 2;
+                u_fontinfo := Some [("openTypeHeadCreated", PStr "2020/00/10 00:00:00")];
+                u_lib := None; u_features := None |} = Err (EFontInfoUpconv KBadDate) /\
+  load_model {| u_version := 2;
+                u_fontinfo := Some [("postscriptBlueValues", PArr [PInt 1])];
+                u_lib := None; u_features := None |}
+  = Err (EFontInfoUpconv (KListPairs "postscriptBlueValues")).
+Proof. repeat split; vm_compute; reflexivity. Qed.
 
 (** ** PostScript hint data and feature text of the format-1 lib *)
 Theorem C14_robofab_moved :
